@@ -19,7 +19,7 @@ EXPLANATION = (
     "by the same min(bits); R3 encode_phys = int(round(value / factor)) and decode_phys = value * factor under the "
     "same INTEGER_TYPES predicate; R4 encode_desc/decode_desc read the one value_descriptions table in opposite "
     "directions and raise for unknown entries; R5 the raw/phys/desc/bits/read/write views are defined once in Variable "
-    "over get_data/set_data and neither SdoVariable nor PdoVariable overrides any of them."
+    "over get_data/set_data and neither SdoVariable nor PdoVariable overrides any of them. R6 no class-level mutable object is mutated in place by instances (each node/client/map/dictionary has its own state)."
 )
 ASSUMPTIONS = [
     "not decided: floating-point rounding for all factors; values that do not fit the addressed bit field",
@@ -230,3 +230,7 @@ def run(chk):
         chk.check(not extra, "R5", f"{rel}:{cname} | overrides only the transport", f"{rel}:{c.node.lineno}",
                   f"{cname} defines {sorted(extra)}: the views would behave differently over this transport")
         chk.check({"get_data", "set_data"} <= set(c.methods), "R5", f"{rel}:{cname} | implements get_data/set_data", f"{rel}:{c.node.lineno}", "")
+
+    # ------------------------------------------------------------------ R6 instances are independent (shared clause)
+    from . import shared as _shared
+    _shared.isolation(chk, "R6", rels=['canopen/variable.py', 'canopen/objectdictionary/__init__.py', 'canopen/sdo/base.py', 'canopen/pdo/base.py'])
